@@ -198,6 +198,8 @@ func globalBase(v ssa.Value, d int) *ssa.Global {
 		}
 	case *ssa.ChangeType:
 		return globalBase(x.X, d+1)
+	case *ssa.IndexAddr:
+		return globalBase(x.X, d+1)
 	}
 	return nil
 }
